@@ -239,109 +239,125 @@ def run_case(case):
     det = dict(cfg=cfg)
     if case["kind"] == "ks":
         return run_ks(r, case, flow, g, label, det)
-    for rows in ((None,) if not cfg.get("ctx") else (1, 3, 4)):
-        ctx = contexts(cfg, rows, g) if rows else None
-        for n in (1, 2, 7):
-            # ---------------- 1. pairing
-            torch.manual_seed(seed + n)
+    # phase 0: the model as built; phase 1: after its VALUES changed the legitimate way (train(), new parameter values, eval()), called
+    # with the very context tensors of phase 0 - samples and densities must still agree row by row (anything sample() remembers about
+    # an earlier embedding / conditioning of the same context object shows against log_prob of a fresh slice)
+    ctx_store = {}
+    for phase in (0, 1):
+        if phase == 1:
             try:
+                flow.train()
                 with torch.no_grad():
-                    s, lp = flow.sample_and_log_prob(n, ctx)
-            except Exception as e:
-                r.ev()
-                r.viol("salp_raises", "flow.sample_and_log_prob raises on a valid call", exc=repr(e)[:250], exc_type=type(e).__name__,
-                       rows=rows, n=n, **det)
-                continue
-            exp_lead = (n,) if ctx is None else (rows, n)
-            if tuple(s.shape[:len(exp_lead)]) != exp_lead or tuple(lp.shape) != exp_lead:
-                r.ev()
-                r.viol("shape", "flow.sample_and_log_prob returns mismatching shapes", samples=list(s.shape), log_prob=list(lp.shape),
-                       expected_lead=list(exp_lead), **det)
-                continue
-            sf = s.reshape(-1, *s.shape[len(exp_lead):])
-            lpf = lp.reshape(-1)
-            for k in range(sf.shape[0]):
-                i = k // n if ctx is not None else None
-                ci = ctx[i:i + 1] if ctx is not None else None
-                r.ev()
-                r.count("pairing_rows")
-                if not torch.isfinite(sf[k]).all() or not torch.isfinite(lpf[k]) or abs(float(lpf[k])) > 50 or _in_clamp_band(cfg, sf[k]):
-                    r.count("skipped_illconditioned_rows")
-                    continue
+                    gg = torch.Generator().manual_seed(seed + 991)
+                    for p_ in flow.parameters():
+                        p_.add_(0.05 * torch.randn(p_.shape, generator=gg, dtype=torch.float64).to(p_.dtype))
+                flow.eval()
+                r.count("value_update_phases")
+            except Exception:
+                break
+        for rows in ((None,) if not cfg.get("ctx") else (1, 3, 4)):
+            ctx = ctx_store.setdefault(rows, contexts(cfg, rows, g) if phase == 0 else None) if rows else None
+            for n in ((1, 2, 7) if phase == 0 else (2,)):
+                # ---------------- 1. pairing
+                torch.manual_seed(seed + n)
                 try:
                     with torch.no_grad():
-                        ref = flow.log_prob(sf[k:k + 1], ci)
+                        s, lp = flow.sample_and_log_prob(n, ctx)
                 except Exception as e:
-                    r.count("row_logprob_raised")
+                    r.ev()
+                    r.viol("salp_raises", "flow.sample_and_log_prob raises on a valid call", exc=repr(e)[:250], exc_type=type(e).__name__,
+                           rows=rows, n=n, **det)
                     continue
-                err = abs(float(ref) - float(lpf[k]))
-                r.worst("pairing_err/tol", err / (TOL * (1 + abs(float(ref)))))
-                if err > TOL * (1 + abs(float(ref))):
-                    # conditioning fallback: the round trip may amplify rounding where the map is steep
-                    if _steep(flow, sf[k:k + 1], ci):
+                exp_lead = (n,) if ctx is None else (rows, n)
+                if tuple(s.shape[:len(exp_lead)]) != exp_lead or tuple(lp.shape) != exp_lead:
+                    r.ev()
+                    r.viol("shape", "flow.sample_and_log_prob returns mismatching shapes", samples=list(s.shape), log_prob=list(lp.shape),
+                           expected_lead=list(exp_lead), **det)
+                    continue
+                sf = s.reshape(-1, *s.shape[len(exp_lead):])
+                lpf = lp.reshape(-1)
+                for k in range(sf.shape[0]):
+                    i = k // n if ctx is not None else None
+                    ci = ctx[i:i + 1] if ctx is not None else None
+                    r.ev()
+                    r.count("pairing_rows")
+                    if not torch.isfinite(sf[k]).all() or not torch.isfinite(lpf[k]) or abs(float(lpf[k])) > 50 or _in_clamp_band(cfg, sf[k]):
                         r.count("skipped_illconditioned_rows")
                         continue
-                    r.viol("pairing", "sample_and_log_prob returns a log-prob that log_prob does not assign to that sample under that context row",
-                           context_row=i, draw=k % n, returned=float(lpf[k]), recomputed=float(ref), rows=rows, n=n, **det)
-                    break
-            # ---------------- 2. hooked noise
-            rec = NoiseRecorder(flow._distribution)
-            try:
-                torch.manual_seed(seed + 100 + n)
-                with torch.no_grad():
-                    smp = flow.sample(n, ctx)
-                noise = rec.noise
-            except Exception as e:
-                r.ev()
-                r.viol("sample_raises", "flow.sample raises on a valid call", exc=repr(e)[:250], exc_type=type(e).__name__, rows=rows,
-                       n=n, **det)
-                continue
-            finally:
-                rec.remove()
-            if tuple(smp.shape[:len(exp_lead)]) != exp_lead:
-                r.ev()
-                r.viol("shape", "flow.sample returns the wrong leading shape", got=list(smp.shape), expected_lead=list(exp_lead), **det)
-                continue
-            if noise is None:
-                r.inconc("noise hook never fired")
-                continue
-            nf = noise.reshape(-1, *noise.shape[len(exp_lead):]) if noise.dim() > len(exp_lead) else noise.reshape(-1, D)
-            sf = smp.reshape(-1, *smp.shape[len(exp_lead):])
-            if nf.shape[0] != sf.shape[0]:
-                r.viol("noise_count", "number of noise draws differs from the number of samples", noise=list(noise.shape),
-                       samples=list(smp.shape), **det)
-                continue
-            distinct = False
-            for k in range(sf.shape[0]):
-                i = k // n if ctx is not None else None
-                ci = ctx[i:i + 1] if ctx is not None else None
-                r.ev()
-                r.count("noise_replay_rows")
+                    try:
+                        with torch.no_grad():
+                            ref = flow.log_prob(sf[k:k + 1], ci)
+                    except Exception as e:
+                        r.count("row_logprob_raised")
+                        continue
+                    err = abs(float(ref) - float(lpf[k]))
+                    r.worst("pairing_err/tol", err / (TOL * (1 + abs(float(ref)))))
+                    if err > TOL * (1 + abs(float(ref))):
+                        # conditioning fallback: the round trip may amplify rounding where the map is steep
+                        if _steep(flow, sf[k:k + 1], ci):
+                            r.count("skipped_illconditioned_rows")
+                            continue
+                        r.viol("pairing", "sample_and_log_prob returns a log-prob that log_prob does not assign to that sample under that context row",
+                               context_row=i, draw=k % n, returned=float(lpf[k]), recomputed=float(ref), rows=rows, n=n, **det)
+                        break
+                # ---------------- 2. hooked noise
+                rec = NoiseRecorder(flow._distribution)
                 try:
+                    torch.manual_seed(seed + 100 + n)
                     with torch.no_grad():
-                        emb = flow._embedding_net(ci)
-                        ref, _ = flow._transform.inverse(nf[k:k + 1], emb)
-                        back = flow.transform_to_noise(sf[k:k + 1], ci)
-                except Exception:
-                    r.count("row_replay_raised")
+                        smp = flow.sample(n, ctx)
+                    noise = rec.noise
+                except Exception as e:
+                    r.ev()
+                    r.viol("sample_raises", "flow.sample raises on a valid call", exc=repr(e)[:250], exc_type=type(e).__name__, rows=rows,
+                           n=n, **det)
                     continue
-                if not torch.isfinite(ref).all() or _in_clamp_band(cfg, sf[k]):
+                finally:
+                    rec.remove()
+                if tuple(smp.shape[:len(exp_lead)]) != exp_lead:
+                    r.ev()
+                    r.viol("shape", "flow.sample returns the wrong leading shape", got=list(smp.shape), expected_lead=list(exp_lead), **det)
                     continue
-                e1 = float((ref[0] - sf[k]).abs().max())
-                sc = 1 + float(ref.abs().max())
-                if e1 > 1e-9 * sc:
-                    r.viol("wrong_block", "sample(n, context)[i, j] is not the transform's inverse of its noise under context row i",
-                           context_row=i, draw=k % n, err=e1, rows=rows, n=n, **det)
-                    break
-                e2 = float((back[0] - nf[k]).abs().max())
-                if e2 > TOL * (1 + float(nf[k].abs().max())) and not _steep(flow, sf[k:k + 1], ci):
-                    r.viol("noise_roundtrip", "transform_to_noise(sample, context row) does not give the recorded noise back",
-                           context_row=i, draw=k % n, err=e2, **det)
-                    break
-                if k and not torch.equal(sf[k], sf[0]):
-                    distinct = True
-            if distinct or sf.shape[0] == 1:
-                r.cell(D, cfg.get("base", "standard"), "noctx" if ctx is None else ("embed" if cfg.get("embed") else "ctx%d" % rows), "rows")
+                if noise is None:
+                    r.inconc("noise hook never fired")
+                    continue
+                nf = noise.reshape(-1, *noise.shape[len(exp_lead):]) if noise.dim() > len(exp_lead) else noise.reshape(-1, D)
+                sf = smp.reshape(-1, *smp.shape[len(exp_lead):])
+                if nf.shape[0] != sf.shape[0]:
+                    r.viol("noise_count", "number of noise draws differs from the number of samples", noise=list(noise.shape),
+                           samples=list(smp.shape), **det)
+                    continue
+                distinct = False
+                for k in range(sf.shape[0]):
+                    i = k // n if ctx is not None else None
+                    ci = ctx[i:i + 1] if ctx is not None else None
+                    r.ev()
+                    r.count("noise_replay_rows")
+                    try:
+                        with torch.no_grad():
+                            emb = flow._embedding_net(ci)
+                            ref, _ = flow._transform.inverse(nf[k:k + 1], emb)
+                            back = flow.transform_to_noise(sf[k:k + 1], ci)
+                    except Exception:
+                        r.count("row_replay_raised")
+                        continue
+                    if not torch.isfinite(ref).all() or _in_clamp_band(cfg, sf[k]):
+                        continue
+                    e1 = float((ref[0] - sf[k]).abs().max())
+                    sc = 1 + float(ref.abs().max())
+                    if e1 > 1e-9 * sc:
+                        r.viol("wrong_block", "sample(n, context)[i, j] is not the transform's inverse of its noise under context row i",
+                               context_row=i, draw=k % n, err=e1, rows=rows, n=n, **det)
+                        break
+                    e2 = float((back[0] - nf[k]).abs().max())
+                    if e2 > TOL * (1 + float(nf[k].abs().max())) and not _steep(flow, sf[k:k + 1], ci):
+                        r.viol("noise_roundtrip", "transform_to_noise(sample, context row) does not give the recorded noise back",
+                               context_row=i, draw=k % n, err=e2, **det)
+                        break
+                    if k and not torch.equal(sf[k], sf[0]):
+                        distinct = True
+                if distinct or sf.shape[0] == 1:
+                    r.cell(D, cfg.get("base", "standard"), "noctx" if ctx is None else ("embed" if cfg.get("embed") else "ctx%d" % rows), "rows")
     r.sample({"flow": label, "ctx": cfg.get("ctx"), "embed": bool(cfg.get("embed"))})
     return r.done()
 
